@@ -164,7 +164,12 @@ func c05a(rep *vrep.Report) {
 							mut[bit/8] ^= 1 << uint(bit%8)
 							_, err := decryptDeviceChainKey(mut, g.g, mk(rAcct, "1").md(g.g).member, S.md(g.g).Device())
 							errR := mk(rAcct, "2").st.RegisterChainKey(ctx, g.g, S.md(g.g).Device(), mut)
-							rep.Eval(fmt.Sprintf("bitflip/decrypt-rejected=%v/register-rejected=%v", err != nil, errR != nil))
+							// the same altered announcement offered to a recipient that already holds the genuine one (Rcv)
+							errK := Rcv.cloneParty().st.RegisterChainKey(ctx, g.g, S.md(g.g).Device(), mut)
+							rep.Eval(fmt.Sprintf("bitflip/decrypt-rejected=%v/register-rejected=%v/after-genuine-rejected=%v", err != nil, errR != nil, errK != nil))
+							if err != nil && errR != nil && errK == nil {
+								rep.Violation("C05/altered-announcement-accepted-once-sender-is-known", fmt.Sprintf("%s->%s in %s bit %d: a recipient that has registered the genuine announcement accepts the altered one without error", sName, rAcct, g.name, bit), map[string]interface{}{"S": sName, "R": rAcct, "G": g.name, "bit": bit})
+							}
 							if err == nil || errR == nil {
 								rep.Violation("C05/altered-announcement-accepted", fmt.Sprintf("%s->%s in %s bit %d", sName, rAcct, g.name, bit), map[string]interface{}{"S": sName, "R": rAcct, "G": g.name, "bit": bit})
 							}
